@@ -22,7 +22,8 @@ THEOREMS = {
             "Cntgs.C11.iter_diff_add", "Cntgs.C11.iter_order", "Cntgs.C11.iter_trichotomy", "Cntgs.runs_ok"],
     "C12": ["Cntgs.C12.from_reference", "Cntgs.C12.copy_assign_fixed", "Cntgs.C12.copy_assign_varying", "Cntgs.C12.move_assign_value",
             "Cntgs.C12.swap_values", "Cntgs.C12.to_reference", "Cntgs.C12.independent", "Cntgs.C12.copy_with_allocator",
-            "Cntgs.C12.move_with_equal_allocator", "Cntgs.C12.move_with_unequal_allocator"],
+            "Cntgs.C12.move_with_equal_allocator", "Cntgs.C12.move_with_unequal_allocator", "Cntgs.C12.history_of_element_operations",
+            "Cntgs.C12.element_observations", "Cntgs.C12.abstract_spec_is_value_semantics"],
     "C19": ["Cntgs.C19.copy_leaves_others", "Cntgs.C19.const_no_write", "Cntgs.C19.schedule_keeps_shared",
             "Cntgs.C19.obs_depends_on_shared_only", "Cntgs.C19.elem_const_no_write", "Cntgs.C19.elem_schedule_keeps_shared"],
     "C20": ["Cntgs.C20.category_partition", "Cntgs.C20.ctor_dispatch", "Cntgs.C20.availability"],
@@ -36,7 +37,8 @@ THEOREMS = {
             "Cntgs.C17.copy_fault_unchanged", "Cntgs.C17.move_assign_fault_unchanged", "Cntgs.C17.copy_assign_fault_world",
             "Cntgs.C17.allocTable_fault", "Cntgs.C17.history_with_allocation_failures", "Cntgs.C17.failed_step",
             "Cntgs.C17.element_from_reference_fault", "Cntgs.C17.element_copy_fault", "Cntgs.C17.element_copy_alloc_fault",
-            "Cntgs.C17.element_move_alloc_fault", "Cntgs.C17.element_move_swap_nothrow", "Cntgs.C17.element_copy_assign_fault"],
+            "Cntgs.C17.element_move_alloc_fault", "Cntgs.C17.element_move_swap_nothrow", "Cntgs.C17.element_copy_assign_fault",
+            "Cntgs.C17.element_failed_step", "Cntgs.C17.element_history_with_allocation_failures", "Cntgs.C17.earun_failed_step"],
     "C05": ["Cntgs.C05.fields_greedy", "Cntgs.C05.alignUp_is_lowest", "Cntgs.C05.elements_greedy", "Cntgs.C05.units_tight",
             "Cntgs.elemSize_fixed", "Cntgs.elemSize_bound"],
     "C01": ["Cntgs.C01.history_offset_table_partial", "Cntgs.C01.history_offset_table_no_overlap", "Cntgs.C01.history_stride", "Cntgs.C01.history_cap",
